@@ -18,6 +18,7 @@ mod syntax;
 mod reader;
 mod session;
 mod timer;
+mod gentrace;
 
 use serde_json::Value;
 
@@ -75,6 +76,7 @@ fn main() {
     let code = match args[1].as_str() {
         "replay" => sandbox::parent(&args[2], &args[3]),
         "worker" => sandbox::worker(&args[2], &args[3], args[4].parse().unwrap()),
+        "gen-trace" => gentrace::main(&args[2], args[3].parse().unwrap(), args[4].parse().unwrap()),
         _ => { eprintln!("unknown command"); 2 }
     };
     std::process::exit(code);
